@@ -238,9 +238,10 @@ DoubleSupport::divide(
         // This is NaN...
         return getNaN();
     }
-    else if (theLHS > 0.0L && isPositiveZero(theRHS) == true)
+    else if ((theLHS > 0.0L && isPositiveZero(theRHS) == true) ||
+             (theLHS < 0.0L && isNegativeZero(theRHS) == true))
     {
-        // This is positive infinity...
+        // The signs are the same, so this is positive infinity...
         return getPositiveInfinity();
     }
     else
